@@ -16,6 +16,7 @@ CONSTANTS
   CounterFirst = TRUE
   FreshPipe = TRUE
   ResetClosed = TRUE
+  BlockAfterClose = TRUE
 INVARIANT TypeOK
 CHECK_DEADLOCK FALSE
 INVARIANT PathDump
